@@ -142,15 +142,33 @@ fn tokenize<'a>(line: &'a str, regex: &Regex) -> Vec<&'a str> {
     // prefix with a space implicitly generated this.
     let mut tokens = vec![""];
     let mut offset = 0;
+    // A token does not start inside a grapheme cluster: a variation selector or a combining
+    // mark is a word character, but it belongs to the (possibly non-word) character before it.
+    let cluster_starts: Vec<usize> = line.grapheme_indices(true).map(|(i, _)| i).collect();
     for m in regex.find_iter(line) {
-        if offset == 0 && m.start() > 0 {
+        let start = match cluster_starts.binary_search(&m.start()) {
+            Ok(_) => m.start(),
+            Err(i) => cluster_starts[i.saturating_sub(1)],
+        };
+        if offset == 0 && start > 0 {
             tokens.push("");
         }
-        // Align separating text as multiple single-character tokens.
-        for t in line[offset..m.start()].graphemes(true) {
-            tokens.push(t);
+        if start < offset {
+            // The cluster began in tokens which have been pushed already: merge them.
+            while let Some(t) = tokens.last() {
+                if !t.is_empty() && t.as_ptr() as usize - line.as_ptr() as usize >= start {
+                    tokens.pop();
+                } else {
+                    break;
+                }
+            }
+        } else {
+            // Align separating text as multiple single-character tokens.
+            for t in line[offset..start].graphemes(true) {
+                tokens.push(t);
+            }
         }
-        tokens.push(&line[m.start()..m.end()]);
+        tokens.push(&line[start..m.end()]);
         offset = m.end();
     }
     if offset < line.len() {
